@@ -96,6 +96,18 @@ func monitorRead(c *hx.Ctx, h hostile, bufSize int, slow *int64) {
 		}
 		total += n
 		if e != nil {
+			// a caller may read again after an error or the end: that must not panic either
+			for k := 0; k < 3; k++ {
+				var n2 int
+				if p := safely(func() { n2, _ = r.Read(buf) }); p != nil {
+					c.Violation(sig("panic-read-after-error"), fmt.Sprintf("%s Read after the reader had returned %q panicked: %v", h.format, e.Error(), p), replay)
+					return
+				}
+				if n2 < 0 || n2 > len(buf) {
+					c.Violation(sig("n-exceeds-len"), fmt.Sprintf("%s Read returned n=%d for a %d-byte buffer", h.format, n2, len(buf)), replay)
+					return
+				}
+			}
 			return
 		}
 		if n == 0 && calls > 100000 {
